@@ -125,6 +125,10 @@ struct Cfg3 {
     dwarf: bool,
     /// `preserve_code_transform`: must change nothing this suite looks at
     preserve: bool,
+    /// `generate_synthetic_names_for_anonymous_items`: names for what has none; outside this
+    /// suite's model (such cases are judged by the oracles only), but the switches of C14 and the
+    /// fixpoint of C08 have to hold under it too
+    synthetic: bool,
 }
 
 fn mk_config(c: &Cfg3, counter: Option<Arc<AtomicUsize>>) -> ModuleConfig {
@@ -133,6 +137,9 @@ fn mk_config(c: &Cfg3, counter: Option<Arc<AtomicUsize>>) -> ModuleConfig {
     cfg.generate_producers_section(!c.skip_producers);
     cfg.generate_dwarf(c.dwarf);
     cfg.preserve_code_transform(c.preserve);
+    if c.synthetic {
+        cfg.generate_synthetic_names_for_anonymous_items(true);
+    }
     if let Some(counter) = counter {
         cfg.on_parse(move |_, _| {
             counter.fetch_add(1, Ordering::SeqCst);
@@ -167,7 +174,7 @@ fn run_case(case: &str, wasm: &[u8], c3: &Cfg3, script: &str, ver: &str, with_co
     let counter = Arc::new(AtomicUsize::new(0));
     let cfg = mk_config(c3, Some(counter.clone()));
     let parsed = out::catch(|| cfg.parse(wasm));
-    let wasm_hex_only = format!("{} {}{}{}{}{} {}", script, c3.skip_name as u8, c3.skip_producers as u8, c3.dwarf as u8, !with_corr as u8, c3.preserve as u8, hex(wasm));
+    let wasm_hex_only = format!("{} {}{}{}{}{}{} {}", script, c3.skip_name as u8, c3.skip_producers as u8, c3.dwarf as u8, !with_corr as u8, c3.preserve as u8, c3.synthetic as u8, hex(wasm));
     // inputs outside the slice the model of this suite describes (full name sections) are judged by
     // the oracles only
     let corr = |case: &str, nontrivial: bool, req: &str, observed: &str| {
@@ -332,6 +339,7 @@ fn run_case(case: &str, wasm: &[u8], c3: &Cfg3, script: &str, ver: &str, with_co
                 skip_producers: if which == "producers" { !c3.skip_producers } else { c3.skip_producers },
                 dwarf: c3.dwarf,
                 preserve: c3.preserve,
+                synthetic: c3.synthetic,
             };
             let cfgf = mk_config(&flipped, None);
             if let Ok(Ok(mut mf)) = out::catch(|| cfgf.parse(wasm)) {
@@ -451,6 +459,7 @@ struct Stats {
     samples: usize,
     real_dwarf: usize,
     full_names: usize,
+    synthetic_names: usize,
 }
 
 /// a module without local functions: imported functions, a memory, a global, exports, active data
@@ -523,7 +532,7 @@ pub fn main(seed: u64, tier: &str, only: Option<&str>) {
         // `<script> <bits> <wasmhex>`
         let f: Vec<&str> = o.split(' ').collect();
         let bits: Vec<char> = f[1].chars().collect();
-        let c3 = Cfg3 { skip_name: bits[0] == '1', skip_producers: bits[1] == '1', dwarf: bits[2] == '1', preserve: bits.get(4) == Some(&'1') };
+        let c3 = Cfg3 { skip_name: bits[0] == '1', skip_producers: bits[1] == '1', dwarf: bits[2] == '1', preserve: bits.get(4) == Some(&'1'), synthetic: bits.get(5) == Some(&'1') };
         run_case("replay", &out::unhex(f[2]), &c3, f[0], &ver, bits.get(3) != Some(&'1'), &mut stats);
         return;
     }
@@ -542,7 +551,7 @@ pub fn main(seed: u64, tier: &str, only: Option<&str>) {
         g.big_offsets = false;
         g.extern_elem_global = false;
         g.max_funcs = 4;
-        let mut c3 = Cfg3 { skip_name: rng.chance(1, 2), skip_producers: rng.chance(1, 2), dwarf: rng.chance(1, 3), preserve: false };
+        let mut c3 = Cfg3 { skip_name: rng.chance(1, 2), skip_producers: rng.chance(1, 2), dwarf: rng.chance(1, 3), preserve: false, synthetic: false };
         g.junk_debug = !c3.dwarf;
         let (mut wasm, _) = gen::gen_valid(&mut rng, &g);
         // every sixth input has no local function at all (imports, a memory, data)
@@ -571,7 +580,8 @@ pub fn main(seed: u64, tier: &str, only: Option<&str>) {
     }
     // C08 also over what this suite's model does not describe: full name sections (function, local,
     // type, table, memory, global, element names) on modules with more functions
-    if std::env::var("VERIF_PROPERTY").unwrap_or_default() == "C08" {
+    let prop = std::env::var("VERIF_PROPERTY").unwrap_or_default();
+    if prop == "C08" || prop == "C14" {
         for case in 0..n / 2 {
             let mut rng = Rng::new(seed ^ 0x5ec8, case as u64);
             let mut g = if case % 4 == 0 { GenCfg::mvp() } else { GenCfg::random(&mut rng) };
@@ -585,7 +595,15 @@ pub fn main(seed: u64, tier: &str, only: Option<&str>) {
             g.extern_elem_global = false;
             g.max_funcs = 12;
             g.junk_debug = false;
-            let c3 = Cfg3 { skip_name: rng.chance(1, 8), skip_producers: rng.chance(1, 2), dwarf: false, preserve: rng.chance(1, 4) };
+            let mut c3 = Cfg3 { skip_name: rng.chance(1, 8), skip_producers: rng.chance(1, 2), dwarf: false, preserve: rng.chance(1, 4), synthetic: rng.chance(1, 3) };
+            if prop == "C14" {
+                c3.skip_name = rng.chance(1, 2);
+                c3.synthetic = rng.chance(1, 2);
+                g.names = rng.chance(2, 3);
+            }
+            if c3.synthetic {
+                stats.synthetic_names += 1;
+            }
             let (wasm, _) = gen::gen_valid(&mut rng, &g);
             let script = *rng.pick(&["e", "ee", "ege"]);
             run_case(&format!("x{}", case), &wasm, &c3, script, &ver, false, &mut stats);
@@ -594,6 +612,7 @@ pub fn main(seed: u64, tier: &str, only: Option<&str>) {
     }
     out::stat("sections.real_dwarf_inputs", stats.real_dwarf);
     out::stat("sections.full_name_section_inputs", stats.full_names);
+    out::stat("sections.cases_with_synthetic_names_on", stats.synthetic_names);
     out::stat("sections.accepted", stats.accepted);
     out::stat("sections.rejected_inputs", stats.rejected);
     out::stat("sections.unknown_custom_sections", stats.unknown_customs);
